@@ -67,24 +67,25 @@ type c19Shape struct {
 	// fix 42360c9 made cedar's SSL client and server interoperate); the stall/cancel
 	// oracle then applies to every I/O step the shape does reach
 	mayFailHonestly bool
+	trickle         int // > 0: the endpoint under test receives at most that many bytes per read
 }
 
 var c19Shapes = []c19Shape{
-	{"plain-send-recv", "plain", "", nil, "", false, false},
-	{"plain-encrypted", "plain-enc", "", nil, "", false, false},
-	{"typed-exchange", "typed", "", nil, "", false, false},
-	{"hs-noauth-enc/client", "client", security.SecurityNever, []security.AuthMethod{mCTB}, security.SecurityRequired, false, false},
-	{"hs-noauth-enc/server", "server", security.SecurityNever, []security.AuthMethod{mCTB}, security.SecurityRequired, false, false},
-	{"hs-claimtobe/client", "client", security.SecurityRequired, []security.AuthMethod{mCTB}, security.SecurityRequired, false, false},
-	{"hs-claimtobe/server", "server", security.SecurityRequired, []security.AuthMethod{mCTB}, security.SecurityRequired, false, false},
-	{"hs-token/client", "client", security.SecurityRequired, []security.AuthMethod{mTOK}, security.SecurityRequired, false, false},
-	{"hs-token/server", "server", security.SecurityRequired, []security.AuthMethod{mTOK}, security.SecurityRequired, false, false},
-	{"hs-token-plaintext/client", "client", security.SecurityRequired, []security.AuthMethod{mTOK}, security.SecurityNever, false, false},
-	{"hs-resumed/client", "client", security.SecurityRequired, []security.AuthMethod{mCTB}, security.SecurityRequired, true, false},
-	{"hs-resumed/server", "server", security.SecurityRequired, []security.AuthMethod{mCTB}, security.SecurityRequired, true, false},
-	{"hs-ssl/client", "client", security.SecurityRequired, []security.AuthMethod{security.AuthSSL}, security.SecurityNever, false, false},
-	{"hs-ssl/server", "server", security.SecurityRequired, []security.AuthMethod{security.AuthSSL}, security.SecurityNever, false, false},
-	{"hs-ssl-enc/client", "client", security.SecurityRequired, []security.AuthMethod{security.AuthSSL}, security.SecurityRequired, false, false},
+	{"plain-send-recv", "plain", "", nil, "", false, false, 0},
+	{"plain-encrypted", "plain-enc", "", nil, "", false, false, 0},
+	{"typed-exchange", "typed", "", nil, "", false, false, 0},
+	{"hs-noauth-enc/client", "client", security.SecurityNever, []security.AuthMethod{mCTB}, security.SecurityRequired, false, false, 0},
+	{"hs-noauth-enc/server", "server", security.SecurityNever, []security.AuthMethod{mCTB}, security.SecurityRequired, false, false, 0},
+	{"hs-claimtobe/client", "client", security.SecurityRequired, []security.AuthMethod{mCTB}, security.SecurityRequired, false, false, 0},
+	{"hs-claimtobe/server", "server", security.SecurityRequired, []security.AuthMethod{mCTB}, security.SecurityRequired, false, false, 0},
+	{"hs-token/client", "client", security.SecurityRequired, []security.AuthMethod{mTOK}, security.SecurityRequired, false, false, 0},
+	{"hs-token/server", "server", security.SecurityRequired, []security.AuthMethod{mTOK}, security.SecurityRequired, false, false, 0},
+	{"hs-token-plaintext/client", "client", security.SecurityRequired, []security.AuthMethod{mTOK}, security.SecurityNever, false, false, 0},
+	{"hs-resumed/client", "client", security.SecurityRequired, []security.AuthMethod{mCTB}, security.SecurityRequired, true, false, 0},
+	{"hs-resumed/server", "server", security.SecurityRequired, []security.AuthMethod{mCTB}, security.SecurityRequired, true, false, 0},
+	{"hs-ssl/client", "client", security.SecurityRequired, []security.AuthMethod{security.AuthSSL}, security.SecurityNever, false, false, 0},
+	{"hs-ssl/server", "server", security.SecurityRequired, []security.AuthMethod{security.AuthSSL}, security.SecurityNever, false, false, 0},
+	{"hs-ssl-enc/client", "client", security.SecurityRequired, []security.AuthMethod{security.AuthSSL}, security.SecurityRequired, false, false, 0},
 }
 
 type c19Out struct {
@@ -101,6 +102,7 @@ func c19Plain(sh c19Shape, stall int, ctx context.Context, onStall func()) *c19O
 	out := &c19Out{}
 	w := netsim.NewWorld(2)
 	a, b := netsim.Pipe(w, hsClientAddr, hsServerAddr)
+	a.ReadChunk = sh.trickle
 	stalledCh := make(chan struct{})
 	switch {
 	case stall == -1:
@@ -214,9 +216,9 @@ func c19Handshake(sh c19Shape, stall int, ctx context.Context, onStall func()) *
 	}
 	o := hsOpts{ClientCfg: cc, ServerCfg: sc, App: true, Stalled: make(chan struct{}), Watchdog: 10 * time.Second}
 	if sh.role == "client" {
-		o.ClientCtx, o.ClientStall = ctx, stall
+		o.ClientCtx, o.ClientStall, o.ClientReadChunk = ctx, stall, sh.trickle
 	} else {
-		o.ServerCtx, o.ServerStall = ctx, stall
+		o.ServerCtx, o.ServerStall, o.ServerReadChunk = ctx, stall, sh.trickle
 	}
 	if stall > 0 {
 		go func() {
@@ -283,7 +285,7 @@ func c19Exec(sh c19Shape, stall int, ctx context.Context, onStall func()) *c19Ou
 func C19Plan() *vlib.Plan {
 	p := &vlib.Plan{
 		Property: "C19", Level: "fault_enumeration",
-		Rule:   "E-FAULT over I/O steps: for each shape (plain send/receive, the same on an encrypted stream, typed exchange; client and server side of handshakes {no authentication + encryption, CLAIMTOBE, TOKEN, TOKEN without encryption, resumed session, SSL (TLS tunnelled through CEDAR messages, throw-away CA)}) a dry run counts the endpoint's connection operations N; for every k < N the k-th read/write blocks forever and, once the stall is entered, (a) the context is cancelled, (b) a harness-controlled deadline context expires (thorough: also a real 50 ms timeout); plus already-cancelled before the call, cancelled after completion, and a never-cancellable context. Oracle: the call returns (10 s watchdog, the only wall-clock judgement), with an error (errors.Is(err, ctx.Err()) for plain stream operations), the connection was closed; never-cancelled runs equal the baseline. Non-trivial = the stall point was reached.",
+		Rule:   "E-FAULT over I/O steps: for each shape (plain send/receive, the same on an encrypted stream, typed exchange; client and server side of handshakes {no authentication + encryption, CLAIMTOBE, TOKEN, TOKEN without encryption, resumed session, SSL (TLS tunnelled through CEDAR messages, throw-away CA)}) a dry run counts the endpoint's connection operations N; for every k < N the k-th read/write blocks forever and, once the stall is entered, (a) the context is cancelled, (b) a harness-controlled deadline context expires (thorough: also a real 50 ms timeout); plus already-cancelled before the call, cancelled after completion, a never-cancellable context, and a trickling link (the endpoint's reads return at most 1 / 3 / 7 bytes) under Background, TODO and cancellable-but-never-cancelled contexts. Oracle: the call returns (10 s watchdog, the only wall-clock judgement), with an error (errors.Is(err, ctx.Err()) for plain stream operations), the connection was closed; never-cancelled runs equal the baseline. Non-trivial = the stall point was reached.",
 		Assume: []string{"free-running (context.AfterFunc callbacks run on standard-library goroutines); FS/KERBEROS/SCITOKENS shapes excluded (need a mount namespace / a KDC / an issuer)"},
 	}
 	p.Gen = func(tier string, yield func(vlib.Case)) {
@@ -371,6 +373,38 @@ func C19Plan() *vlib.Plan {
 					res.Violate("C19/wrong-error/"+sh.name+"/pre-cancelled", "%v", out.err)
 				}
 				res.Outcome("pre-cancelled-refused")
+				return res
+			}})
+			yield(vlib.Case{ID: sh.name + "/trickling-link", Run: func() *vlib.Result {
+				// the bytes arrive a few at a time (every read is short); a context that
+				// can never be cancelled - and one that could but is not - adds no failure
+				res := &vlib.Result{}
+				for _, chunk := range []int{1, 3, 7} {
+					sh := sh
+					sh.trickle = chunk
+					for _, kind := range []string{"background", "todo", "cancellable-not-cancelled"} {
+						var ctx context.Context
+						cancel := func() {}
+						switch kind {
+						case "background":
+							ctx = context.Background()
+						case "todo":
+							ctx = context.TODO()
+						default:
+							ctx, cancel = context.WithCancel(context.Background())
+						}
+						out := c19Exec(sh, -1, ctx, nil)
+						cancel()
+						res.Evals++
+						res.Nontrivial++
+						if !out.returned {
+							res.Violate(fmt.Sprintf("C19/hang/%s/trickle-%s", sh.name, kind), "shape %s, %d bytes per read, %s context: did not return", sh.name, chunk, kind)
+						} else if out.err != nil && !sh.mayFailHonestly {
+							res.Violate(fmt.Sprintf("C19/spurious-failure/%s/trickle-%s", sh.name, kind), "shape %s, %d bytes per read, %s context: %v", sh.name, chunk, kind, out.err)
+						}
+						res.Outcome("trickle-completed")
+					}
+				}
 				return res
 			}})
 			yield(vlib.Case{ID: sh.name + "/cancel-after-completion", Run: func() *vlib.Result {
